@@ -76,6 +76,23 @@ def denoteFold (s : Screen) (acc : List Bool) : List ViewExpr → List Bool
   | e :: es => denoteFold s (orSel acc (denote s e)) es
 end
 
+/-- the rows `np.vstack(arrs).T` of equally long columns -/
+def zipColumns (cols : List (List Int)) (n : Nat) : List (List Int) :=
+  (List.range n).map (fun i => cols.map (fun c => c[i]!))
+
+/-- `select_unique_zipped_numpy_arrays(arrs)`: `ValueError` for no array (`np.vstack([])`) or arrays of different lengths,
+    otherwise the first-occurrence mask of the zipped rows -/
+def selectUnique : List (List Int) → Except Err (List Bool)
+  | [] => .error .valueError
+  | c :: rest =>
+    if rest.any (fun x => x.length != c.length) then .error .valueError
+    else .ok (uniqueMask (zipColumns (c :: rest) c.length))
+
+/-- the arrays `filter_dataset_to_unique_treatments` hands to `select_unique_zipped_numpy_arrays` for the rows selected by
+    `sel`: the sample ids and one column of treatment ids per treatment slot -/
+def uniqColumns (s : Screen) (sel : List Bool) : List (List Int) :=
+  maskFilter s.sids sel :: (List.range s.arity).map (fun j => column (maskFilter s.tids sel) j)
+
 /-- per-experiment attributes of a view: the parent's arrays indexed by the selection vector -/
 structure Rows where
   tnames : List (List Name)
